@@ -102,3 +102,55 @@ Section Limits.
     destruct (typed_limit_violation_rejected_kw_l tag c dargs dkw k t req e x Hf Hin Hk Ht Hv) as (err & Herr). congruence.
   Qed.
 End Limits.
+
+(** * the empty string under the concrete converters: never a value; refused where the element is required (the two converter
+      hypotheses of construct_sound_any_kw, PROVED for the typed model - date-time readers included when they refuse "") *)
+Lemma convert_empty e : match convert e (PStr []) with OK (PNone, _) => elem_required e = false | OK _ => False | Err _ => True end.
+Proof.
+  induction e as [s r|c IH n]; [|exact IH].
+  destruct s as [|l st|v|l|sc]; destruct r; try (destruct l); try (destruct st); try (destruct sc); vm_compute; auto.
+Qed.
+
+Section TypedEmpty.
+  Variable table : list (N * ety).
+  Variable conv_dt : bool -> text -> result (option pyval).
+  Hypothesis conv_dt_refuses_empty : forall b, exists k, conv_dt b [] = Err k.
+
+  Theorem typed_conv_empty_never_value : conv_empty_never_value pyval (conv_typed table conv_dt).
+  Proof.
+    intros t x. unfold conv_typed. destruct (lookup_ety table t) as [[e|r|r|]|]; try discriminate.
+    - pose proof (convert_empty e) as H. destruct (convert e (PStr [])) as [[v w]|k]; [|discriminate].
+      destruct v; try contradiction. discriminate.
+    - destruct (conv_dt_refuses_empty false) as [k ->]. discriminate.
+    - destruct (conv_dt_refuses_empty true) as [k ->]. discriminate.
+  Qed.
+
+  (** where the element-type table agrees with the class about what is required *)
+  Definition required_agree (c : cinfo) : Prop :=
+    forall k t, In (k, AElem t true) (spec_no_list c) ->
+      (exists e, lookup_ety table t = Some (ESty e) /\ elem_required e = true)
+      \/ (exists r, lookup_ety table t = Some (EDateTime r)) \/ (exists r, lookup_ety table t = Some (ETime r)).
+  Theorem typed_conv_required_refuses_empty c : required_agree c -> conv_required_refuses_empty pyval (conv_typed table conv_dt) c.
+  Proof.
+    intros Hreq k t Hin. unfold conv_typed. destruct (Hreq k t Hin) as [(e & Ht & He)|[(r & Ht)|(r & Ht)]]; rewrite Ht.
+    - pose proof (convert_empty e) as H. destruct (convert e (PStr [])) as [[v w]|k0]; [|discriminate].
+      destruct v; try contradiction. congruence.
+    - destruct (conv_dt_refuses_empty false) as [k0 ->]. discriminate.
+    - destruct (conv_dt_refuses_empty true) as [k0 ->]. discriminate.
+  Qed.
+End TypedEmpty.
+
+Definition required_agree_b (table : list (N * ety)) (c : cinfo) : bool :=
+  forallb (fun ka => match snd ka with
+                     | AElem t true => match lookup_ety table t with
+                                       | Some (ESty e) => elem_required e
+                                       | Some (EDateTime _) | Some (ETime _) => true
+                                       | _ => false
+                                       end
+                     | _ => true
+                     end) (spec_no_list c).
+Lemma required_agree_b_sound table c : required_agree_b table c = true -> required_agree table c.
+Proof.
+  unfold required_agree_b, required_agree. rewrite forallb_forall. intros H k t Hin. specialize (H (k, AElem t true) Hin). cbn [snd] in H.
+  destruct (lookup_ety table t) as [[e|r|r|]|]; try discriminate; eauto.
+Qed.
